@@ -1,7 +1,33 @@
 (** Evaluator glue for C20: replays on the model what the harness did with the
     real qLogFile / qLogReader and compares the projected observables. *)
-From AGH Require Import Base.Run Model.QLogFile.
+From Coq Require Export Uint63.
+From AGH Require Import Base.Run Model.QLogFile Model.QLogCodec Model.QLogBytes.
 Local Open Scope Z_scope.
+
+(** Byte strings of the byte-level cases arrive packed, seven bytes to a
+    primitive integer (first byte lowest, the count in the three lowest
+    bits). *)
+Definition ibit (x i : Uint63.int) (v : N) : N :=
+  if Uint63.eqb (Uint63.land (Uint63.lsr x i) 1) 0 then 0%N else v.
+Definition byte_N (x : Uint63.int) : N :=
+  (ibit x 0 1 + ibit x 1 2 + ibit x 2 4 + ibit x 3 8
+   + ibit x 4 16 + ibit x 5 32 + ibit x 6 64 + ibit x 7 128)%N.
+Fixpoint bytes_of (len : nat) (x : Uint63.int) : bytes :=
+  match len with
+  | O => []
+  | S l => byte_N x :: bytes_of l (Uint63.lsr x 8)
+  end.
+Definition len_of (x : Uint63.int) : nat :=
+  let l := Uint63.land x 7 in
+  if Uint63.eqb l 0 then 0 else if Uint63.eqb l 1 then 1 else if Uint63.eqb l 2 then 2
+  else if Uint63.eqb l 3 then 3 else if Uint63.eqb l 4 then 4 else if Uint63.eqb l 5 then 5
+  else if Uint63.eqb l 6 then 6 else 7.
+Inductive il := I0 | IC (x : Uint63.int) (l : il).
+Arguments IC x%uint63_scope l.
+Fixpoint pk (l : il) : bytes :=
+  match l with I0 => [] | IC x l' => bytes_of (len_of x) (Uint63.lsr x 3) ++ pk l' end.
+(** A run of [n] bytes [b] (padding of long lines). *)
+Definition rp (b : N) (n : Z) : bytes := repeat b (Z.to_nat n).
 
 (** Operations on one qLogFile, with what the implementation did. *)
 Inductive fop :=
@@ -22,10 +48,24 @@ Inductive rop :=
   (* seekTS: target, class, currentFile after, its position after, seekFellBack *)
   | RSeek (ts : Z) (code cur pos : Z) (fellback : bool).
 
+(** Operations on one qLogFile, observed with the strings it returned. *)
+Inductive bop :=
+  | BSeekStart (obs_pos : Z)
+  (* ReadNext: None = io.EOF; else (index of the line the returned string is
+     equal to, or -1 and the string itself; position after) *)
+  | BRead (obs : option (Z * bytes * Z))
+  (* seekTS: target, result class, returned pos, depth, q.position afterwards *)
+  | BSeek (ts : Z) (code pos depth pos_after : Z)
+  (* readQLogTimestamp of line k as the real function returned it *)
+  | BStamp (k : Z) (obs : Z).
+
 Inductive case :=
   (* Go constants maxEntrySize, bufferSize; the file; the operations *)
   | CFile (me buf : Z) (f : list (Z * Z)) (ops : list fop)
-  | CReader (me buf : Z) (fs : list (list (Z * Z))) (ops : list rop).
+  | CReader (me buf : Z) (fs : list (list (Z * Z))) (ops : list rop)
+  (* the lines of the file as bytes; time.Parse of every quote-delimited piece
+     of them that parses (text, Unix nanoseconds); the operations *)
+  | CBytes (me buf : Z) (lines : list bytes) (otbl : list (bytes * Z)) (ops : list bop).
 
 Definition seek_code (r : seek_res) : Z :=
   match r with
@@ -104,12 +144,58 @@ Fixpoint r_replay (me buf : Z) (ops : list rop) (r : reader) : bool :=
       Bool.eqb (r_fellback r') fb && r_replay me buf ops r'
   end.
 
+(** time.Parse as the table of the case gives it. *)
+Definition oracle_of (tbl : list (bytes * Z)) (v : bytes) : Z :=
+  match find (fun e => eqb_bytes (fst e) v) tbl with Some e => snd e | None => 0 end.
+
+Definition line_no (ls : list bytes) (k : Z) : bytes := nth (Z.to_nat k) ls [].
+
+(** Byte-level replay: the functions of Model/QLogBytes.v on the content. *)
+Fixpoint b_replay (o : bytes -> Z) (me buf : Z) (ls : list bytes) (c : bytes) (ops : list bop) (s : rstate) : bool :=
+  match ops with
+  | [] => true
+  | BSeekStart p :: ops =>
+      let s' := b_seek_start c s in (pos s' =? p) && b_replay o me buf ls c ops s'
+  | BRead obs :: ops =>
+      let x := b_read_next me buf c s in
+      match fst x, obs with
+      | None, None => true
+      | Some (str, _), Some (k, given, pa) =>
+          eqb_bytes str (if k <? 0 then given else line_no ls k) && (pos (snd x) =? pa)
+      | _, _ => false
+      end && b_replay o me buf ls c ops (snd x)
+  | BSeek ts code p d pa :: ops =>
+      let (r, s') := b_seek_ts_state o me c ts s in
+      (seek_code r =? code) &&
+      match r with Found p' d' => (p' =? p) && (d' =? d) | _ => true end &&
+      (pos s' =? pa) && b_replay o me buf ls c ops s'
+  | BStamp k obs :: ops =>
+      (read_qlog_ts o (line_no ls k) =? obs) && b_replay o me buf ls c ops s
+  end.
+
+(** The same operations for the (length, stamp) model on the abstraction of
+    the lines (Proofs/QLogBytes.v proves the two agree; here both are run). *)
+Definition to_fop (ls : list bytes) (o : bop) : list fop :=
+  match o with
+  | BSeekStart p => [FSeekStart p]
+  | BRead None => [FRead None]
+  | BRead (Some (k, given, pa)) =>
+      [FRead (Some (blen (if k <? 0 then given else line_no ls k), pa))]
+  | BSeek ts code p d pa => [FSeek ts code p d pa]
+  | BStamp _ _ => []
+  end.
+
 Definition case_ok (c : case) : bool :=
   match c with
   | CFile me buf f ops =>
       (me =? max_entry_size) && (buf =? buffer_size) && f_replay me buf f ops rstate0
   | CReader me buf fs ops =>
       (me =? max_entry_size) && (buf =? buffer_size) && r_replay me buf ops (new_reader fs)
+  | CBytes me buf ls tbl ops =>
+      let o := oracle_of tbl in
+      (me =? max_entry_size) && (buf =? buffer_size) &&
+      b_replay o me buf ls (flat ls) ops rstate0 &&
+      f_replay me buf (absf o ls) (flat_map (to_fop ls) ops) rstate0
   end.
 
 Definition mismatches := Base.Run.mismatches case_ok.
@@ -130,5 +216,13 @@ Definition explain (c : case) :=
                           | RSeek ts _ _ _ _ =>
                               let x := reader_seek_ts me ts (new_reader fs) in
                               [(ts, rseek_code (fst x), r_cur (snd x))]
+                          | _ => [] end) ops)
+  | CBytes me buf ls tbl ops =>
+      let o := oracle_of tbl in
+      (map (fun ln => (blen ln, read_qlog_ts o ln)) ls,
+       flat_map (fun op => match op with
+                          | BSeek ts _ _ _ _ =>
+                              [(ts, seek_code (b_seek_ts o me (flat ls) ts),
+                                match b_seek_ts o me (flat ls) ts with Found p _ => p | _ => -1 end)]
                           | _ => [] end) ops)
   end.
